@@ -17,7 +17,9 @@ def clean(s):
     s = re.sub(r'contract error at \S+', 'contract error', s)
     return s.replace('|', '\\|')[:110]
 md = []
-cor = rows(sys.argv[1])
+def natkey(r):
+    return [int(t) if t.isdigit() else t for t in re.split(r'(\d+)', r[1])]
+cor = sorted(rows(sys.argv[1]), key=natkey)
 def section(title, pred, describe):
     sel = [r for r in cor if pred(r[1])]
     if not sel: return
@@ -39,7 +41,7 @@ section('Canaries: the reverse of each fix', lambda i: 'canaries/' in i, lambda 
 section('Changes seeded by sub-agents from the property text alone', lambda i: i.startswith('seeded/'), seeded_desc)
 section('Design mutants', lambda i: 'mutants/' in i, lambda i: '')
 if len(sys.argv) > 2:
-    ben = rows(sys.argv[2])
+    ben = sorted(rows(sys.argv[2]), key=natkey)
     md.append('**Must-pass corpus: behaviour-preserving refactorings** (%d, %d quiet)\n' % (len(ben), sum(1 for r in ben if r[0] == 'QUIET')))
     md.append('| refactoring | checks run | result |')
     md.append('|---|---|---|')
